@@ -31,11 +31,15 @@ meta['demo_on_change'] = {'exit': rc1, 'tail': [l for l in o1.strip().splitlines
 meta['confirmed'] = (rc0 == 0 and rc1 != 0)
 results = {}
 for chk in [pid] + also:
+  ev = '/verif/evidence/%s.json' % chk
+  ev_backup = open(ev).read() if os.path.exists(ev) else None
   t0 = time.time()
   rc, o = run(['/verif/check', chk, '--tier', tier], env={'VERIF_REPO': wt}, cwd='/verif')
   lines = [l for l in o.splitlines() if l.startswith('VIOLATION') or l.startswith('  ') or l.startswith('KNOWN-FINDING')]
   results[chk] = {'tier': tier, 'exit': rc, 'wall_s': round(time.time() - t0, 1),
                   'violations': [l[:400] for l in lines if not l.startswith('KNOWN')][:8]}
+  if ev_backup is not None:
+    open(ev, 'w').write(ev_backup)      # evidence must come from runs against /repo itself
   print(chk, tier, 'exit', rc, '%.0fs' % (time.time() - t0))
   for l in results[chk]['violations'][:4]: print('   ', l[:220])
 meta['checks'] = results
